@@ -2,8 +2,8 @@
 Driver for C14 (PALS q-gram filter completeness).  For one case line it (1) runs the filter
 model on the C10 index model of the target, with the retirement rule regenerated from the
 source, and compares the multiset of hits with the implementation's; (2) evaluates the
-statement of C14 on the implementation's hits: every required ε-match (found by a scan of
-every diagonal) must be covered by some hit; (3) answers ok / diff / fail / known:<Kid>.
+statement of C14 on the implementation's hits: every ε-match required on the strand (`requiredC`,
+found by a scan of every diagonal) must be covered by some hit; (3) answers ok / diff / fail / known:<Kid>.
 Core-only.
 -/
 import Biogo.Go.Wire
@@ -73,8 +73,8 @@ def handleFl (k n e off : Nat) (self comp : Bool) (t q : List UInt8) (obs : Stri
     let p : Params := { minMatch := n, maxError := e, tubeOffset := off }
     let thr := minWordsPerFilterHit n k e
     let tags0 := ["fl", s!"k={k}", s!"e={e}", sizeTag (max t.length q.length)]
-      ++ (if self then [if comp then "self-complement" else "self"] else [])
-    let inScope := thr > 0 && off ≥ e && off ≥ 1 && !(self && comp)
+      ++ (if self then [if comp then "self-complement" else "self"] else (if comp then ["complement"] else []))
+    let inScope := thr > 0 && off ≥ e && off ≥ 1
     -- model
     let m := match Biogo.Kmer.new lk alpha.length k t with
       | .error err => "err:index:" ++ err.code
@@ -96,9 +96,14 @@ def handleFl (k n e off : Nat) (self comp : Bool) (t q : List UInt8) (obs : Stri
       | none => bad "unparsable-observation"
       | some hits =>
         let tubeWidth := off + e
-        let (nreq, unc) := Biogo.Spec.Filter.uncovered lk t q n e tubeWidth self hits
+        let (nreq, unc) := Biogo.Spec.Filter.uncoveredC lk t q n e tubeWidth self comp hits
         let c := mkCfg rule k t.length p self comp
+        -- self-complement: is some ε-match on the other side of the anti-diagonal (cut, not required)?
+        let below := self && comp &&
+          (Biogo.Spec.Filter.uncoveredBy lk t q n e tubeWidth (fun a b => decide (a + b < t.length)) []).1 > 0
         let tags := tags0 ++ (if nreq == 0 then ["no-match"] else ["nt"])
+          ++ (if below then ["below-antidiagonal"] else [])
+          ++ (if self && comp && nreq > 0 then ["above-antidiagonal"] else [])
           ++ (if nreq > 50 then ["many-matches"] else [])
           ++ (if hits.isEmpty then ["no-hit"] else [])
           ++ (if off < k then ["offset<k"] else []) ++ (if off == e then ["offset=e"] else [])
